@@ -267,7 +267,9 @@ func (e *Engine) runTopDefer(w *Worker, st *State, g *G, fr *Frame) {
 		return
 	}
 	if intr := e.intrinsicFor(fn); intr != nil {
-		inline(func() { intr(&icall{e: e, w: w, st: st, g: g, fn: fn, args: d.Args, kind: fkDefer, posOverride: d.Pos}) })
+		inline(func() {
+			intr(&icall{e: e, w: w, st: st, g: g, fn: fn, args: d.Args, kind: fkDefer, posOverride: d.Pos})
+		})
 		return
 	}
 	pop()
